@@ -405,27 +405,116 @@ class SymAlg(object):
         return z3.RealVal(str(Fraction(x)))
 
 
+import decimal as _dec
+
+_CTX = _dec.Context(prec=40, Emax=_dec.MAX_EMAX, Emin=_dec.MIN_EMIN,
+                    traps=[])
+
+
+class Big(object):
+    """reference arithmetic of the concrete world: decimal numbers with an
+    (almost) unbounded exponent, so that the *specification* side of a
+    replayed obligation cannot overflow or underflow whatever the scale of the
+    likelihood; nan compares false with everything."""
+    __slots__ = ('d',)
+
+    def __init__(self, x):
+        if isinstance(x, Big):
+            self.d = x.d
+        elif isinstance(x, _dec.Decimal):
+            self.d = x
+        else:
+            x = float(x)
+            self.d = _dec.Decimal(x) if x == x else _dec.Decimal('NaN')
+
+    @staticmethod
+    def exp(x):
+        x = float(x)
+        if x != x:
+            return Big(float('nan'))
+        if x == -float('inf'):
+            return Big(0.0)
+        return Big(_CTX.exp(_dec.Decimal(x)))
+
+    def nan(self):
+        return self.d.is_nan()
+
+    def _b(self, o):
+        return o if isinstance(o, Big) else Big(o)
+
+    def __add__(self, o): return Big(_CTX.add(self.d, self._b(o).d))
+    __radd__ = __add__
+    def __sub__(self, o): return Big(_CTX.subtract(self.d, self._b(o).d))
+    def __rsub__(self, o): return Big(_CTX.subtract(self._b(o).d, self.d))
+    def __mul__(self, o): return Big(_CTX.multiply(self.d, self._b(o).d))
+    __rmul__ = __mul__
+    def __truediv__(self, o): return Big(_CTX.divide(self.d, self._b(o).d))
+    def __rtruediv__(self, o): return Big(_CTX.divide(self._b(o).d, self.d))
+    def __neg__(self): return Big(_CTX.minus(self.d))
+    def __abs__(self): return Big(_CTX.abs(self.d))
+
+    def __pow__(self, k):
+        return Big(_CTX.power(self.d, _dec.Decimal(k)))
+
+    def sqrt(self):
+        return Big(_CTX.sqrt(self.d))
+
+    def _cmp(self, o, f):
+        o = self._b(o)
+        if self.d.is_nan() or o.d.is_nan():
+            return False
+        return f(_CTX.compare(self.d, o.d))
+
+    def __lt__(self, o): return self._cmp(o, lambda c: c < 0)
+    def __le__(self, o): return self._cmp(o, lambda c: c <= 0)
+    def __gt__(self, o): return self._cmp(o, lambda c: c > 0)
+    def __ge__(self, o): return self._cmp(o, lambda c: c >= 0)
+    def __eq__(self, o): return self._cmp(o, lambda c: c == 0)
+    def __ne__(self, o): return not self.__eq__(o)
+    __hash__ = None
+
+    def __float__(self):
+        return float(self.d)
+
+    def __repr__(self):
+        return 'Big(%s)' % self.d
+
+
+def _bmax(*xs):
+    m = xs[0]
+    for x in xs[1:]:
+        if x > m:
+            m = x
+    return m
+
+
 class ConcAlg(object):
     symbolic = False
     tol = 1e-7
 
     def E(self, x):
-        return math.exp(min(x, 700.0)) if x != -float('inf') else 0.0
+        return Big.exp(x)
 
     def T(self, x):
-        return float(x)
+        return Big(x)
 
     def eq(self, a, b):
-        return abs(a - b) <= self.tol * max(1.0, abs(a), abs(b))
+        a, b = Big(a), Big(b)
+        if a.nan() or b.nan():
+            return False
+        return abs(a - b) <= Big(self.tol) * _bmax(Big(1.0), abs(a), abs(b))
 
     def le(self, a, b):
-        return a <= b + self.tol * max(1.0, abs(a), abs(b))
+        a, b = Big(a), Big(b)
+        if a.nan() or b.nan():
+            return False
+        return a <= b + Big(self.tol) * _bmax(Big(1.0), abs(a), abs(b))
 
     def lt(self, a, b):
-        return a < b
+        return Big(a) < Big(b)
 
     def conj(self, xs):
         return all(xs)
 
     def num(self, x):
-        return float(x)
+        return Big(x)
